@@ -59,7 +59,11 @@ def run_batch(ctx, ntasks, store, fine, faults, real_joblib=False):
     unregistered = faults == "unregistered"      # the batch is handed to evaluate() without being recorded in problem.individuals
     mixedcls = faults == "mixedcls"              # designs carried by the different individual classes of the framework
     procs = int(faults[5:]) if isinstance(faults, str) and faults.startswith("procs") else 2     # max_processes for this execution
-    if constrained or extlock or unregistered or mixedcls or procs != 2:
+    dupvec = faults == "dupvec"            # designs that are distinct objects at the same point (repeated sweep points, clipped particles)
+    iterator = faults == "iterator"        # the batch is handed over as a one-shot iterator
+    abort = faults == "abort"              # the last design fails five times: the call raises, what was evaluated before stays stored
+    serialise = faults == "serialise"      # a scheduling point INSIDE the serialisation of a design (while its row is being built)
+    if constrained or extlock or unregistered or mixedcls or procs != 2 or dupvec or iterator or abort or serialise:
         faults = False
     key = ("p", constrained)
     env = Env.cache.get(key)
@@ -71,6 +75,11 @@ def run_batch(ctx, ntasks, store, fine, faults, real_joblib=False):
             s = h.get("sched") if h else None
             if s is not None:
                 s.point("obj:enter")
+            if env.get("abort_vector") is not None and tuple(individual.vector) != env["abort_vector"] and individual is env.get("abort_ind"):
+                raise RuntimeError("permanent failure")         # the re-sampled replacements of the failing design fail as well
+            if env.get("abort_vector") is not None and tuple(individual.vector) == env["abort_vector"]:
+                env["abort_ind"] = individual
+                raise RuntimeError("permanent failure")
             if env["faults"]:
                 # 'free': failures cost no deviation (all patterns); otherwise every failure is one deviation
                 c = env["ctx"].choose("fault", 2, 0 if env["faults"] == "free" else 1, "objective")
@@ -117,8 +126,22 @@ def run_batch(ctx, ntasks, store, fine, faults, real_joblib=False):
     if mixedcls:
         from .c20 import make_as, CLASSES
         batch = [make_as(CLASSES[k % 4], [float(k + 1)]) for k in range(ntasks)]
+    elif dupvec:
+        batch = [Individual([float(k // 2 + 1)]) for k in range(ntasks)]
     else:
         batch = [Individual([float(k + 1)]) for k in range(ntasks)]
+    env["abort_vector"] = tuple(batch[-1].vector) if (abort and batch) else None
+    if serialise:
+        class SchedDict(dict):
+            """Custom data whose iteration is a scheduling point: another worker may run while this design is being serialised."""
+            def items(self):
+                h = env["holder"]
+                sch = h.get("sched") if h else None
+                if sch is not None:
+                    sch.point("serialise:custom")
+                return dict.items(self)
+        for ind in batch:
+            ind.custom = SchedDict(note="x")
     if not unregistered:
         for ind in batch:
             problem.individuals.append(ind)
@@ -134,7 +157,10 @@ def run_batch(ctx, ntasks, store, fine, faults, real_joblib=False):
         with scheduled(ctx, fine=fine, db=store, extlock=extlock) as holder:
             env["holder"] = holder
             try:
-                alg.evaluate(batch)
+                if iterator:
+                    alg.evaluator.evaluate(iter(batch))        # the evaluator takes any iterable, also a one-shot one
+                else:
+                    alg.evaluate(batch)
             except HarnessError:
                 raise
             except BaseException as e:  # noqa
@@ -159,14 +185,18 @@ def judge(problem, batch, exc, rows, info, store, faults, desc):
     from artap.individual import Individual
     out = []
     constrained = faults == "constrained"
-    if constrained or faults in ("extlock", "unregistered", "mixedcls") or (isinstance(faults, str) and faults.startswith("procs")):
+    abort = faults == "abort"
+    if constrained or faults in ("extlock", "unregistered", "mixedcls", "dupvec", "iterator", "abort", "serialise") or (isinstance(faults, str) and faults.startswith("procs")):
         faults = False
 
     def bad(key, msg):
         out.append((key, msg + "; " + desc))
     if info.get("deadlock"):
         bad("C07:deadlock", "workers left blocked: %s" % info["deadlock"])
-    if exc is not None and not faults:
+    if abort:
+        if not isinstance(exc, RuntimeError):
+            bad("C07:abort:five-failures-no-runtimeerror", "the last design fails permanently but the caller saw %r" % (exc,))
+    elif exc is not None and not faults:
         bad("C07:exception:%s" % type(exc).__name__, "evaluate raised %r" % (exc,))
         return out
     calls = {}
@@ -174,6 +204,10 @@ def judge(problem, batch, exc, rows, info, store, faults, desc):
         calls.setdefault(ident, []).append(vec)
     for k, ind in enumerate(batch):
         n = len(calls.get(id(ind), []))
+        if abort and (k == len(batch) - 1 or ind.state != Individual.State.EVALUATED):
+            if k == len(batch) - 1 and ind.state == Individual.State.EVALUATED:
+                bad("C07:abort:failing-design-evaluated", "the permanently failing design is marked evaluated")
+            continue
         if not faults:
             if n != 1:
                 bad("C07:objective-calls:%s" % ("none" if n == 0 else "repeated"), "design %d evaluated %d times" % (k, n))
@@ -324,7 +358,9 @@ def run(tier, seed):
                   ("explore", 33, True, False, False, 0), ("explore", 65, False, False, False, 0), ("explore", 129, True, False, False, 0),
                   ("free", 33, True, 5), ("free", 65, False, 5), ("free", 257, True, 2), ("free", 1025, False, 1),
                   ("explore", 2, True, False, "unregistered", 3), ("explore", 33, True, False, "unregistered", 0), ("explore", 129, True, False, "unregistered", 0),
-                  ("explore", 3, True, False, "mixedcls", 2), ("explore", 9, True, False, "mixedcls", 1)]
+                  ("explore", 3, True, False, "mixedcls", 2), ("explore", 9, True, False, "mixedcls", 1),
+                  ("explore", 4, True, False, "dupvec", 2), ("explore", 3, False, False, "dupvec", 3), ("explore", 3, True, False, "iterator", 2), ("explore", 1, False, False, "iterator", 1),
+                  ("explore", 3, True, False, "abort", 2), ("explore", 4, True, False, "abort", 1), ("explore", 2, True, False, "serialise", 3), ("explore", 3, True, False, "serialise", 2)]
     else:
         shards = [("explore", 2, False, False, False, None), ("explore", 2, True, False, False, 3),
                   ("explore", 3, False, False, False, 3), ("explore", 3, True, False, False, 2),
@@ -338,7 +374,9 @@ def run(tier, seed):
                   ("explore", 33, True, False, False, 0), ("explore", 65, False, False, False, 0), ("explore", 129, False, False, False, 0),
                   ("free", 33, True, 3), ("free", 65, False, 3), ("free", 257, False, 1),
                   ("explore", 2, True, False, "unregistered", 1), ("explore", 33, True, False, "unregistered", 0), ("explore", 65, True, False, "unregistered", 0),
-                  ("explore", 3, True, False, "mixedcls", 1), ("explore", 9, True, False, "mixedcls", 0)]
+                  ("explore", 3, True, False, "mixedcls", 1), ("explore", 9, True, False, "mixedcls", 0),
+                  ("explore", 4, True, False, "dupvec", 1), ("explore", 3, False, False, "dupvec", 2), ("explore", 3, True, False, "iterator", 1), ("explore", 1, False, False, "iterator", 1),
+                  ("explore", 3, True, False, "abort", 1), ("explore", 4, True, False, "abort", 0), ("explore", 2, True, False, "serialise", 2), ("explore", 3, True, False, "serialise", 1)]
     split = []
     for sh in shards:
         if sh[0] == "explore":
